@@ -39,6 +39,8 @@ type FlowSpec struct {
 }
 
 type PDRSpec struct {
+	// PDIOrder: 0 = Source Interface first (what pfcpsim sends), 1 = reversed, 2 = rotated by one
+	PDIOrder int
 	ID         uint16
 	Precedence uint32
 	SrcIface   uint8
@@ -181,6 +183,17 @@ func (p *PDRSpec) pdiIEs() []*ie.IE {
 	}
 	if p.AppID != "" {
 		pdi = append(pdi, ie.NewApplicationID(p.AppID))
+	}
+	// TS 29.244 fixes no order of the IEs inside a grouped IE
+	switch p.PDIOrder {
+	case 1:
+		for i, j := 0, len(pdi)-1; i < j; i, j = i+1, j-1 {
+			pdi[i], pdi[j] = pdi[j], pdi[i]
+		}
+	case 2:
+		if len(pdi) > 1 {
+			pdi = append(pdi[1:], pdi[0])
+		}
 	}
 	return pdi
 }
